@@ -387,7 +387,7 @@ class FileUploadHandler(UploadHandler):
             )
 
         # 3. Validate MIME type
-        if self.allowed_types and request.mime_type not in self.allowed_types:
+        if self.allowed_types is not None and request.mime_type not in self.allowed_types:
             return GeminiResponse(
                 status=StatusCode.BAD_REQUEST.value,
                 meta=f"MIME type '{request.mime_type}' not allowed",
